@@ -351,7 +351,7 @@ func (engine *Engine) Restore() error {
 
 	sd, err := io.ReadAll(sf)
 	if err != nil {
-		return nil
+		return err
 	}
 
 	snapshotObject := new(internal.SnapshotObject)
